@@ -47,3 +47,23 @@ pub fn vf_dedup_by_param(v: &mut Vec<(f64, usize)>, tol: f64)
             let d = prm(final(v)@, i + 1) - #[trigger] prm(final(v)@, i);
             (if d >= 0real { d } else { -d }) >= rv(tol) },
 { unimplemented!() }
+
+// ---- derived answers (max_intersection, farthest_point_direction_distance, Curve2 surface-point intersection)
+//   M1  v.iter().map(|(t, _)| *t).collect::<Vec<f64>>(): the first components, in order (R8)
+//   M2  ts.iter().max_by(|a, b| a.partial_cmp(b).unwrap()).cloned(): None iff the list is empty, otherwise an element of
+//       the list that is >= every element (NaN panic dropped) (R12)
+//   M3  f64::MIN: some f64 value; NO order property is assumed (the real model has no least element, and assuming one
+//       would be inconsistent with the closure of the model under subtraction) (R12)
+#[verifier::external_body]
+pub fn vf_first_components(v: &Vec<(f64, usize)>) -> (r: Vec<f64>)
+    ensures r.len() == v.len(), forall|k: int| 0 <= k < r.len() ==> #[trigger] r[k] == v[k].0
+{ v.iter().map(|(t, _)| *t).collect() }
+#[verifier::external_body]
+pub fn vf_max_by_partial_cmp(v: &Vec<f64>) -> (r: Option<f64>)
+    ensures
+        r.is_none() <==> v.len() == 0,
+        r.is_some() ==> (exists|k: int| 0 <= k < v.len() && #[trigger] v[k] == r.unwrap())
+            && (forall|k: int| 0 <= k < v.len() ==> rv(#[trigger] v[k]) <= rv(r.unwrap())),
+{ v.iter().max_by(|a, b| a.partial_cmp(b).unwrap()).cloned() }
+#[verifier::external_body]
+pub fn vf_f64_lowest() -> (r: f64) { f64::MIN }
